@@ -29,12 +29,15 @@ SEARCH = {
 }
 
 # stored values (by index) and how the *sought* object is built at run time
-STORED = [0, 1, 2, 1000, "ab", ("x", 1), None, True, 2.5, "", -1, 10 ** 20]
+NAN = float("nan")
+STORED = [0, 1, 2, 1000, "ab", ("x", 1), None, True, 2.5, "", -1, 10 ** 20, NAN]
 
 
 def sought(i):
     """Equal to STORED[i] but (where the type allows) not the same object."""
     v = STORED[i]
+    if v is NAN:
+        return v  # the identical object: identity does not imply equality, nan != nan, so nothing matches
     if isinstance(v, bool) or v is None:
         return v
     if isinstance(v, int):
@@ -69,7 +72,7 @@ def floors(ctx):
     return {"evaluations": 3000 if q else 30000, "match_deep": 100 if q else 1000,
             "multi_match": 100 if q else 1000, "match_is_falsy": 100 if q else 1000,
             "no_match_none": 100 if q else 1000, "match_is_start": 20, "sought_not_identical": 100,
-            "some_vertex_lacks_attr": 100, "match_only_outside_universe": 10, "cases_with_caching_on": 100}
+            "some_vertex_lacks_attr": 100, "match_only_outside_universe": 10, "cases_with_caching_on": 100, "identical_but_unequal_value_sought": 20}
 
 
 def _matches(v, attr, val):
@@ -119,6 +122,8 @@ def _run_case(ctx, spec, si, attr, vi, absent, _shrinking, cache):
                 ctx.count("sought_not_identical")
         else:
             ctx.count("no_match_none")
+            if val is NAN and any(getattr(v, attr, None) is NAN for v in order):
+                ctx.count("identical_but_unequal_value_sought")
             if uni is not None and any(_matches(v, attr, val) for v in g.verts if not any(v is m for m in uni.vertices)):
                 ctx.count("match_only_outside_universe")
         if any(not hasattr(v, attr) for v in order):
@@ -225,6 +230,8 @@ def replay(ctx, case):
     for a in (spec.get("attrs") or {}).values():
         if isinstance(a.get("key"), list):
             a["key"] = tuple(a["key"])
+        if isinstance(a.get("key"), float) and a["key"] != a["key"]:
+            a["key"] = NAN  # JSON gave us *a* NaN; the case is about *the* NaN that is also sought
     run_case(ctx, spec, case["start"], case["attr"], case["vi"], case.get("absent"), cache=case.get("cache", False))
     ctx.nontrivial("replay-a")
     ctx.nontrivial("replay-b")
